@@ -26,7 +26,7 @@ def run(ctx):
     ctx.rule = ("scenario = seeded (service {TimingWheel 1-3 levels x 4/8/16 slots x 1-4 ms tick | TimerService | TimerServicePool}, "
                 "2-6 scheduler threads, boundary-biased delays {0, sub-tick, shared bucket, level/cascade boundaries, at and beyond the wheel span}, "
                 "cancel/reschedule racing the fire, handlers {quick, slow, throwing, scheduling, cancelling}, periodic timers, "
-                "shutdown {stop|drain} x {at quiescence | racing the schedulers with a delay injected after the clock read}); "
+                "first or second life of the service (stop->reset->start after a life ending with cancelled timers pending), shutdown {stop|drain} x {at quiescence | racing the schedulers with a delay injected after the clock read}); "
                 "distinct = hash of those coordinates plus which race outcomes were observed")
     ctx.assumptions = [
         "all stamps come from CLOCK_MONOTONIC via a raw syscall (same clock as steady_clock, never shimmed)",
@@ -35,4 +35,4 @@ def run(ctx):
     ]
     ctx.require_obs("scenarios_timerservice", "scenarios_timerpool", "timers_fired", "cancel_true", "cancel_false",
                     "cancel_lost_race_to_fire", "reschedule_true", "periodic_timers", "discarded_by_shutdown",
-                    "late_schedule_refused", "shutdown_stop_racing", "shutdown_drain_racing", "clock_reads_delayed")
+                    "late_schedule_refused", "shutdown_stop_racing", "shutdown_drain_racing", "clock_reads_delayed", "scenarios_in_second_life_timerservice")
